@@ -175,6 +175,17 @@ class Message:
 
             headers.append((name, value))
 
+        # a forwarder header admitted above maps to the same environ name as
+        # its hyphen spelling; neither can be discarded safely (one is the
+        # forwarder's word, the other may be what the framing was read from)
+        if self.cfg.header_map != "dangerous":
+            spelled = {}
+            for name, _ in headers:
+                key = name.replace("-", "_")
+                if spelled.get(key, name) != name:
+                    raise InvalidHeaderName(name)
+                spelled[key] = name
+
         return headers
 
     def set_body_reader(self):
